@@ -150,6 +150,57 @@ def once_enter_value_guarded(db, rep, rule):
 
 
 
+def _state_read(e):
+    """an element that (re)reads the once state: atomic load, __sync builtin on &once->inited, or a plain read of ->inited"""
+    if e.k == "AtomicExpr" and e.get("aop") == "load":
+        return True
+    if e.k == "CallExpr" and (e.name or "").startswith("__sync_") and any(x.k == "MemberExpr" and x.name == "inited" for a in e.args() for x in a.walk()):
+        return True
+    return False
+
+
+def once_recheck_under_lock(en, rep, rule, variant):
+    """Double-checked locking: a caller is told to initialise (orc_once_enter returns FALSE, mutex held) only after the state
+    has been read again AFTER the mutex was taken - on every path, whichever thread it is.  Otherwise two threads that both
+    saw "not initialised" before the mutex initialise one after the other."""
+    from collections import deque
+    locks_ = [c for c in en.calls("orc_once_mutex_lock")]
+    rets = [r for r in en.walk() if r.k == "ReturnStmt" and r.c and r.c[0] is not None and strip_casts(r.c[0]).v == 0]
+    if not locks_ or not rets:
+        raise AnalysisBroken("orc_once_enter (%s): %d lock calls, %d `return FALSE`" % (variant, len(locks_), len(rets)))
+    if not any(_state_read(e) for e in en.walk()):
+        raise AnalysisBroken("orc_once_enter (%s): no read of the once state recognised" % variant)
+    bad = None
+    for lk in locks_:
+        lp = en.pos(lk)
+        seen = set()
+        dq = deque([(lp[0], lp[1] + 1)])
+        while dq and bad is None:
+            b, i0 = dq.popleft()
+            if (b, i0 > 0) in seen:
+                continue
+            seen.add((b, i0 > 0))
+            blk = en.blocks[b]
+            stop = False
+            for e in blk.el[i0:]:
+                if _state_read(e):
+                    stop = True
+                    break
+                if e.k == "ReturnStmt" and any(e.id == r.id for r in rets):
+                    bad = e
+                    break
+            if stop or bad is not None or blk.noreturn:
+                continue
+            for s_ in blk.succs:
+                if s_ is not None:
+                    dq.append((s_, 0))
+    rep.check(bad is None, rule, where(en), "recheck-under-lock:%s" % variant,
+              "every path from orc_once_mutex_lock() to `return FALSE` re-reads the once state (%s branch of orconce.h)" % variant,
+              "orc_once_enter (%s branch of orconce.h) can take the once mutex and return FALSE (line %s) without reading the state again: a thread "
+              "that saw `not initialised` before it got the mutex initialises although another thread has done so in the meantime - the wrapper is "
+              "initialised twice and earlier callers keep the first object" % (variant, bad.line if bad is not None else "?"), line=bad.line if bad is not None else None)
+
+
 def run(ctx):
     db = ctx.db()
     rep = ctx.report
@@ -212,6 +263,25 @@ def run(ctx):
               "value stored before the release store of `inited`, which precedes the unlock (memory order %s)" % st_flag[0].get("order"),
               "orc_once_leave publishes in the wrong order or with a memory order weaker than release (order=%s): a reader can see inited != 0 with a stale value" % st_flag[0].get("order"))
     once_enter_value_guarded(db, rep, "D3-PUBLICATION")
+    # D10: double-checked locking in orc_once_enter, in the branch this build compiles and in the pre-C11 (__sync) branch that code
+    # including the installed header with -std=gnu99 gets
+    once_recheck_under_lock(en, rep, "D10-ONCE-RECHECK", "as built")
+    sdb99 = ctx.snippet_db("once99", "#include <orc/orconce.h>\nvoid *orcverif_use (OrcOnce *o) { void *v; if (orc_once_enter (o, &v)) return v; orc_once_leave (o, 0); return 0; }\n",
+                           flags="-std=gnu99")
+    t99 = next((t for t in sdb99.tus.values() if "orc_once_enter" in t.fn), None)
+    if t99 is None:
+        raise AnalysisBroken("orconce.h compiled with -std=gnu99 defines no orc_once_enter")
+    en99, lv99 = t99.fn["orc_once_enter"], t99.fn["orc_once_leave"]
+    if any(n.k == "AtomicExpr" for n in en99.walk()):
+        raise AnalysisBroken("-std=gnu99 did not select the pre-C11 branch of orconce.h")
+    once_recheck_under_lock(en99, rep, "D10-ONCE-RECHECK", "pre-C11 __sync")
+    sv99 = [n for n in lv99.walk() if n.k == "BinaryOperator" and n.op == "=" and (access_path(n.c[0]) or "").endswith("->value")]
+    sf99 = [n for n in lv99.walk() if _state_read(n)]
+    un99 = [c for c in lv99.calls("orc_once_mutex_unlock")]
+    rep.check(bool(sv99 and sf99 and un99) and lv99.dominates(sv99[0], sf99[0]) and lv99.dominates(sf99[0], un99[0]), "D10-ONCE-RECHECK", where(lv99),
+              "value;sync-op;unlock:pre-C11 __sync",
+              "orc_once_leave (pre-C11 branch): value stored, then the full-barrier __sync operation that marks the state, then the unlock",
+              "orc_once_leave (pre-C11 branch) does not store the value before the __sync operation that publishes the state, or unlocks before it")
 
     # ---- D4 -------------------------------------------------------------------
     run_roots = ["orc_program_compile", "orc_program_compile_for_target", "orc_target_get_default", "orc_program_compile_full", "orc_executor_run", "orc_executor_run_backup", "orc_executor_emulate",
